@@ -863,11 +863,20 @@ static int run_c07(const std::string &backend, const std::string &reuse, const s
   c.stayopen = (reuse == "idle" || reuse == "tcp_idle");
   c.usevc    = (reuse == "tcp_idle");
   c.tries    = (reuse == "busy_later") ? 3 : 2;
+  // longsleep<ms>: one request with a base timeout of <ms> (>= 1000), a single try, nothing else
+  // happening: the event thread plans one long sleep (whole seconds + a sub-second part)
+  bool longsleep = reuse.compare(0, 9, "longsleep") == 0;
+  if (longsleep) {
+    c.timeoutms = atoi(reuse.c_str() + 9);
+    c.tries     = 1;
+    if (c.timeoutms < 1000) machinery("longsleep needs a timeout >= 1000 ms");
+  }
   std::string label = "c07." + backend + "." + reuse + "." + phase;
   reset_state();
   wd_arm(label, 20000);
   world_up(c);
   int  budget = (c.tries == 3) ? 250 + 500 + 1000 : 250 + 500;
+  if (longsleep) budget = c.timeoutms;
   int  q0     = -1;
   bool setup_ok = true;
   std::string why;
@@ -895,7 +904,7 @@ static int run_c07(const std::string &backend, const std::string &reuse, const s
   } else if (reuse == "overdue") {
     // q1 itself is sent first; the event thread is then held before ares_timeout() until q1's
     // first deadline has passed, so the loop computes its sleep from an already expired deadline
-  } else if (reuse != "fresh") {
+  } else if (reuse != "fresh" && !longsleep) {
     machinery("bad reuse %s", reuse.c_str());
   }
 
@@ -941,7 +950,7 @@ static int run_c07(const std::string &backend, const std::string &reuse, const s
     if (c.usevc) reused = (p1[0].tcp && p0[0].tcp) ? 1 : 0;
     else reused = (p1[0].srcport == p0.back().srcport) ? 1 : 0;
   }
-  if (setup_ok && (reuse != "fresh") && (reuse != "overdue") && reused != 1 && reuse != "tcp_idle") {
+  if (setup_ok && (reuse != "fresh") && (reuse != "overdue") && !longsleep && reused != 1 && reuse != "tcp_idle") {
     setup_ok = false;
     why      = "connection was not reused";
   }
